@@ -1508,7 +1508,7 @@ CONTRACTS = [
     Contract("wntr.epanet.io:InpFile._write_patterns/_read_patterns", P + ["C20"], [_patterns_case(k_) for k_ in (1, 5, 6, 7, 12, 13)],
              interpret_always=(_patterns_roundtrip,), models=_token_models,
              trusted=_pair_trust + ["token model applied to '{:f}' (six decimals): the text round-off of multipliers is decided in the bounded layer only"]),
-    Contract("wntr.epanet.io:InpFile._write_options/_read_options", P + ["C03"],
+    Contract("wntr.epanet.io:InpFile._write_options/_read_options", P + ["C03", "C07"],
              [_options_case(u, v_, dm, ub_, q_) for u in _U for (v_, dm, ub_, q_) in ((2.2, "PDA", ("STOP", None), ("NONE", None)), (2.2, "DDA", ("CONTINUE", 10), ("CHEMICAL", "ug/L")),
                                                                                 (2.0, "PDA", ("STOP", None), ("AGE", None)), (2.2, "PDD", ("CONTINUE", 10), ("TRACE", None)),
                                                                                 (2.0, "DDA", ("STOP", None), ("CHEMICAL", "mg/L")))],
